@@ -741,6 +741,32 @@ theorem askSegs_eq {β : Type} (f : Bytes → Res β) (acc : Bytes) (segs : List
       cases h
       exact ⟨hf.symm, ss.flatten, by simp [List.append_assoc]⟩
 
+theorem askSegs_needMore {β : Type} (f : Bytes → Res β) (acc : Bytes) (segs : List Bytes) (hne : segs ≠ [])
+    (h : askSegs f acc segs = .needMore) : f (acc ++ segs.flatten) = .needMore := by
+  induction segs generalizing acc with
+  | nil => exact absurd rfl hne
+  | cons s ss ih =>
+    simp only [askSegs] at h
+    cases hf : f (acc ++ s) with
+    | ok b => simp [hf] at h
+    | needMore =>
+      simp only [hf] at h
+      cases ss with
+      | nil => simpa using hf
+      | cons t ts =>
+        have := ih (acc ++ s) (by simp) h
+        simpa [List.append_assoc] using this
+
+theorem decidingPrefix_none {β : Type} (f : Bytes → Res β) (acc : Bytes) (segs : List Bytes)
+    (h : decidingPrefix f acc segs = none) : askSegs f acc segs = .needMore := by
+  induction segs generalizing acc with
+  | nil => rfl
+  | cons s ss ih =>
+    simp only [decidingPrefix, askSegs] at h ⊢
+    cases hf : f (acc ++ s) with
+    | ok b => simp [hf] at h
+    | needMore => simp only [hf] at h ⊢; exact ih _ h
+
 /-! ## the connection: buffering, replay, relay -/
 
 theorem recvFrom_append (b : Bool) (h1 h2 : List Ev) : recvFrom b (h1 ++ h2) = recvFrom b h1 ++ recvFrom b h2 := by
@@ -1241,6 +1267,24 @@ theorem askSegs_ignore_relay {Pat : Type} (E : Env Pat) (c : NCfg Pat) (acc : By
       simp only [hf] at h
       cases h
       simp [nextLayer, hf]
+
+/-- a "not excluded" answer asked segment by segment is an intercepting stack asked segment by segment -/
+theorem askSegs_notignore {Pat : Type} (E : Env Pat) (c : NCfg Pat) (acc : Bytes) (segs : List Bytes)
+    (h : askSegs (fun d => ignoreConnection E c.toCfg d []) acc segs = .ok false) :
+    ∃ p, askSegs (fun d => nextLayer E c d []) acc segs = .ok (intercept E c p []) := by
+  induction segs generalizing acc with
+  | nil => simp [askSegs] at h
+  | cons s ss ih =>
+    simp only [askSegs] at h ⊢
+    cases hf : ignoreConnection E c.toCfg (acc ++ s) [] with
+    | needMore =>
+      simp only [hf] at h
+      simp only [nextLayer, hf]
+      exact ih (acc ++ s) h
+    | ok b =>
+      simp only [hf] at h
+      cases h
+      exact ⟨acc ++ s, by simp [nextLayer, hf]⟩
 
 /-! ## for EVERY history, admissible or not: what is sent is a prefix of what was received -/
 
